@@ -161,8 +161,8 @@ func (p *parser) parseBinaryExpr(left Node) Node {
 	if binaryExp.Right == nil {
 		return nil // previous error
 	}
-	if expType == EMPTY_ARRAY {
-		binaryExp.T = binaryExp.Right.Type() // array concatenation e.g. [] + [1 2]
+	if rightType := binaryExp.Right.Type(); binaryExp.Op == OP_PLUS && expType.Name == ARRAY && rightType != nil && rightType.Name == ARRAY {
+		binaryExp.T = concatType(expType, rightType) // array concatenation e.g. [] + [1 2]
 	}
 	p.validateBinaryType(binaryExp)
 	if p.isWSS() {
